@@ -314,7 +314,7 @@ pub fn run(s: &mut Sink) {
     let kmax: u64 = if thorough { 1 << 26 } else { 1 << 16 };
     s.meta.insert("alphabet".into(), json!({
         "gather_bytes": "each argument over V64 (31 values) with the others fixed, full product over a 6-value subset",
-        "memfrob": "every length 0..=64 x every start alignment 0..7 x 3 fill patterns, guard pages and canaries around the buffer",
+        "memfrob": "every length 0..=600 and around 1 KiB, 4 KiB and 64 KiB x every start alignment 0..7 x 3 fill patterns, guard pages and canaries around the buffer",
         "strcmp": "all pairs of strings of length <= 3 over {0x01,0x7f,0x80,0xff}, NUL terminated; common prefixes of every length 0..=1100 and around 4096 and 65536 followed by every pair of tails of length <= 1; null pointers",
         "sqrti": format!("k^2, k^2-1, k^2+1 for every k < {kmax}; 2^n, 2^n-1, 2^n+1 for n < 64; 2^52 neighbourhood; u64::MAX neighbourhood"),
         "bpf_trace_printf": "each of the three printed arguments over {16^k, 16^k-1, 16^k+1, 2^n-1, 2^n|1, small values, u64::MAX}, others fixed; full product over an 8-value subset; stdout captured in a child process",
@@ -356,7 +356,9 @@ pub fn run(s: &mut Sink) {
     // memfrob
     if s.take(g) {
         let mut n = 0;
-        for len in 0..=64 {
+        let mut lens: Vec<usize> = (0..=600).collect();
+        lens.extend([1023, 1024, 1025, 4095, 4096, 4097, 65535, 65536, 65537]);
+        for len in lens {
             for align in 0..8 {
                 for fill in [0x00u8, 0x2a, 0xd5] {
                     check_memfrob(s, len, align, fill);
